@@ -76,6 +76,32 @@ class Evaluator:
             if isinstance(l, tuple) and isinstance(r, tuple):
                 return l + r
             return UNKNOWN
+        if isinstance(e, ast.BinOp) and isinstance(e.op, ast.Mult):
+            l, r = self.ev(e.left), self.ev(e.right)
+            if isinstance(l, str) and isinstance(r, int) and not isinstance(r, bool):
+                return l * r
+            if isinstance(r, str) and isinstance(l, int) and not isinstance(l, bool):
+                return r * l
+            return UNKNOWN
+        if isinstance(e, ast.BinOp) and isinstance(e.op, ast.Mod):
+            l, r = self.ev(e.left), self.ev(e.right)
+            if isinstance(l, str) and r is not UNKNOWN and not isinstance(r, (Abstract, AbstractEntry)):
+                try:
+                    return l % r
+                except (TypeError, ValueError):
+                    return UNKNOWN
+            return UNKNOWN
+        if isinstance(e, ast.JoinedStr):
+            parts = []
+            for v in e.values:
+                if isinstance(v, ast.Constant):
+                    parts.append(str(v.value))
+                elif isinstance(v, ast.FormattedValue):
+                    x = self.ev(v.value)
+                    if x is UNKNOWN or isinstance(x, (Abstract, AbstractEntry)):
+                        return UNKNOWN
+                    parts.append(str(x))
+            return ''.join(parts)
         if isinstance(e, ast.UnaryOp) and isinstance(e.op, ast.Not):
             v = self.truth(self.ev(e.operand))
             return UNKNOWN if v is UNKNOWN else (not v)
@@ -143,6 +169,14 @@ class Evaluator:
                 return UNKNOWN
             if fn in self.calls:
                 return self.calls[fn](self, e)
+            if isinstance(e.func, ast.Attribute) and e.func.attr == 'format' and not e.keywords:
+                b = self.ev(e.func.value)
+                args = [self.ev(a) for a in e.args]
+                if isinstance(b, str) and all(a is not UNKNOWN and not isinstance(a, (Abstract, AbstractEntry)) for a in args):
+                    try:
+                        return b.format(*args)
+                    except (IndexError, KeyError, ValueError):
+                        return UNKNOWN
             if isinstance(e.func, ast.Attribute) and e.func.attr == 'replace' and len(e.args) == 2:
                 b, a0, a1 = self.ev(e.func.value), self.ev(e.args[0]), self.ev(e.args[1])
                 if all(isinstance(x, str) for x in (b, a0, a1)):
